@@ -53,6 +53,8 @@ type FuncContract struct {
 	Binds    []Bind
 	Callsite []CallsiteClause
 	Lets     []Clause // function-level definitions evaluated at entry: Label = name
+	Measure  []Expr   // function-level decreases (lexicographic) for recursion
+	MeasureText string
 }
 
 type CallsiteClause struct {
@@ -338,6 +340,17 @@ func (cs *Contracts) ParseFile(path, pkgName string) error {
 			}
 			curLoop.Hints = append(curLoop.Hints, c)
 		case "decreases":
+			if curLoop == nil && curF != nil {
+				for _, part := range splitTop(rest) {
+					e, err := ParseExpr(part)
+					if err != nil {
+						return fail(l, "%v", err)
+					}
+					curF.Measure = append(curF.Measure, e)
+				}
+				curF.MeasureText = rest
+				continue
+			}
 			if curLoop == nil {
 				return fail(l, "decreases outside loop")
 			}
@@ -426,7 +439,8 @@ type (
 		Name      string
 		Val, Body Expr
 	}
-	EOld struct{ X Expr }
+	EOld   struct{ X Expr }
+	EEntry struct{ X Expr } // value at entry of the current loop
 )
 
 type tok struct {
@@ -827,6 +841,8 @@ func (p *lexer) postfix() Expr {
 			p.expectOp(")")
 			if id, ok := x.(EIdent); ok && id.Name == "old" && len(args) == 1 {
 				x = EOld{X: args[0]}
+			} else if id, ok := x.(EIdent); ok && id.Name == "entry" && len(args) == 1 {
+				x = EEntry{X: args[0]}
 			} else {
 				x = ECall{Fun: x, Args: args}
 			}
@@ -858,4 +874,26 @@ func (p *lexer) primary() Expr {
 		}
 	}
 	panic(parseErr(fmt.Sprintf("unexpected token %q", t.val)))
+}
+
+// splitTop splits at top-level commas.
+func splitTop(s string) []string {
+	var out []string
+	depth := 0
+	start := 0
+	for i, c := range s {
+		switch c {
+		case '(', '[', '{':
+			depth++
+		case ')', ']', '}':
+			depth--
+		case ',':
+			if depth == 0 {
+				out = append(out, strings.TrimSpace(s[start:i]))
+				start = i + 1
+			}
+		}
+	}
+	out = append(out, strings.TrimSpace(s[start:]))
+	return out
 }
